@@ -26,7 +26,12 @@ def run(tier):
             f = head.split()
             kind, w, order = int(f[1]), int(f[2]), int(f[3])
             # all 2^32 values for the unsigned 32-bit big- and little-endian pair; all 2^24 low-bit patterns for every function
-            sw2.append(head + (' 2' if (w == 32 and kind == 0 and order in (0, 1)) or w <= 24 else ' 1') + ' | ' + exp)
+            if (w == 32 and kind == 0 and order in (0, 1)) or w <= 24:
+                # sliced so that no single executor call runs anywhere near the watchdog, whatever the load of the machine
+                nparts = 64 if w == 32 else 4
+                sw2 += ['%s 2 %d %d | %s' % (head, part, nparts, exp) for part in range(nparts)]
+            else:
+                sw2 += ['%s 1 %d 4 | %s' % (head, part, exp) for part in range(4)]
         sweeps = sw2
     scripts = [others[i:i + 500] for i in range(0, len(others), 500)] + [[s] for s in sweeps]
     res = vf.run_scripts('endian', scripts, 'C15', name='endian')
